@@ -288,8 +288,13 @@ def _normalised_name(fn, node, depth=0):
         for v in vals:
             if isinstance(v, tuple):
                 it = v[1]
+                while isinstance(it, ast.Call) and isinstance(it.func, ast.Name) and it.func.id in ('sorted', 'list', 'iter', 'reversed', 'tuple', 'set') \
+                        and it.args:
+                    it = it.args[0]
+                if isinstance(it, ast.Call) and isinstance(it.func, ast.Attribute) and it.func.attr == 'keys' and not it.args:
+                    it = it.func.value
                 s = src(it)
-                if '.metaclasses' in s and ('keys()' in s or s.endswith('.metaclasses')):
+                if s.endswith('.metaclasses'):
                     kinds.add('keys')
                 else:
                     kinds.add(None)
